@@ -112,7 +112,7 @@ def explore(harness, shard: dict | None = None, *, cpu_budget: float = 30.0, per
                             n = seen_sigs.get(v.signature, 0)
                             seen_sigs[v.signature] = n + 1
                             if n < 3 and len(res["violations"]) < max_violations:
-                                res["violations"].append({"signature": v.signature, "detail": str(v.detail)[:600],
+                                res["violations"].append({"signature": v.signature, "detail": str(sym.realize(v.detail))[:600],
                                                           "witness": w, "shard": shard or {}})
                         if stop_on_violation:
                             breakout = True
